@@ -42,6 +42,14 @@ func genC06(tier string, run int, r *simcore.Rand) *harness.Plan {
 		spec, ops = genContentWorld(r2)
 	}
 	cfg.World = *spec
+	// One restart in five meets a read error while the index is re-opened.
+	if r4 := simcore.NewRand(simcore.Mix(r.Uint64(), "scan-fault")); true {
+		for i := range ops {
+			if ops[i].K == "restart" && r4.Bool(0.2) {
+				ops[i].IterFault = r4.Range(1, 3)
+			}
+		}
+	}
 	// One run in seven: the index rows refuse the commit of one delivery.
 	if r3 := simcore.NewRand(simcore.Mix(r.Uint64(), "commit-fault")); r3.Bool(0.15) {
 		var ds []int
@@ -692,7 +700,7 @@ func execC06(rc *harness.RunCtx, p *harness.Plan, cfg *Config, w *world, ops []O
 			out.Reached["restart-mid-history"]++
 			fl.restart = true
 			cz.restart()
-			if err := s.open(); err != nil {
+			if _, err := s.reopen(ops[i]); err != nil {
 				if report("open", "", "re-opening the index over its own rows failed: "+err.Error(), i) {
 					return out
 				}
